@@ -1,17 +1,21 @@
 (** C17 — the spilling cacher adapter never loses an entry.
     Only statements, each closed by [exact] of a lemma proved in Lru/Adapter_proofs.v.
 
-    The adapter is storageCacherAdapter over capacityLRU(cap, mb) and an open map persister;
+    The adapter is storageCacherAdapter over capacityLRU(cap, mb) and a map persister (memorydb);
     [newAdapter] is [Some] exactly for cap >= 1 and mb >= 1.  The domain is the one of the property:
-    [ops] is an ARBITRARY history of Put/Get/Has/Peek in which each key is bound to one immutable,
-    non-empty value ([bind]) and sizes are >= 0 (any size, beyond the byte capacity included; re-puts
-    with another size included): [Forall (wf_op bind) ops]. *)
+    [ops] is an ARBITRARY history of Put/HasOrAdd/Get/Has/Peek/SizeInBytesContained/MaxSize in which each
+    key is bound to one immutable, non-empty value ([bind]) and sizes are >= 0 (any size, beyond the byte
+    capacity included; re-puts with another size included): [Forall (wf_op bind) ops].  Such a history
+    never closes the adapter ("backed by an open persister").  [wf_c] is the same domain with Close
+    allowed at any point, any number of times: the theorems about Close are stated over it.
+    [puts ops] = the keys handed to Put or to HasOrAdd so far. *)
 From Coq Require Import List ZArith Bool.
 From Verif Require Import Base.BStr Lru.LruTypes Lru.CapacityLru Lru.Adapter Lru.Adapter_proofs.
 Import ListNotations.
 Open Scope Z_scope.
 
-(** every key put so far is reported by Has and returned by Get with its value *)
+(** every key put so far - through Put or through HasOrAdd - is reported by Has and returned by Get
+    with its value *)
 Theorem C17_no_loss : forall bind cap mb a0 ops, newAdapter cap mb = Some a0 -> Forall (wf_op bind) ops ->
   forall k, In k (puts ops) ->
   ad_Has (arun a0 ops) k = true /\ snd (ad_Get (arun a0 ops) k) = Some (bind k).
@@ -58,6 +62,126 @@ Proof.
   - vm_compute. repeat split; reflexivity.
 Qed.
 
+(** ---- HasOrAdd.  Its first flag says whether the key was in one of the two tiers; when it was,
+    nothing changes and the second flag is false; when it was not, the entry is in the memory tier
+    afterwards (and by C17_no_loss never lost) and the second flag is PUT'S RETURN VALUE: true iff some
+    entry left the memory tier in this call (and is then in the persister) *)
+Theorem C17_hasoradd_flags : forall bind cap mb a0 ops k v sz a' has added, newAdapter cap mb = Some a0 ->
+  Forall (wf_op bind) ops -> wf_op bind (AHasOrAdd k v sz) ->
+  astep (arun a0 ops) (AHasOrAdd k v sz) = (a', ARHasOrAdd has added) ->
+  let a := arun a0 ops in
+  (has = true <-> In k (Keys (mem a)) \/ db_get k (db a) <> None) /\
+  (has = true -> a' = a /\ added = false) /\
+  (has = false ->
+     Peek (mem a') k = Some v /\
+     (added = true <-> exists e, In e (entries (mem a)) /\ ~ In (e_key e) (Keys (mem a'))
+                                 /\ db_get (e_key e) (db a') = Some (e_val e))).
+Proof. exact hasoradd_flags. Qed.
+
+(** FINDING (the name "added" of types.Cacher.HasOrAdd's second result read literally): "added = true
+    iff the entry was inserted" is false of the code.  HasOrAdd(a) on the fresh adapter inserts a and
+    returns (has=false, added=false), because [added] is Put's "something was spilled" flag. *)
+Theorem C17_hasoradd_added_means_inserted_refuted : exists bind cap mb a0 ops k v sz a',
+  newAdapter cap mb = Some a0 /\ Forall (wf_op bind) ops /\ wf_op bind (AHasOrAdd k v sz) /\
+  astep (arun a0 ops) (AHasOrAdd k v sz) = (a', ARHasOrAdd false false) /\
+  Peek (mem (arun a0 ops)) k = None /\ Peek (mem a') k = Some v.
+Proof.
+  exists bind_ex, 2, 100, (mkAdapter (mkClru [] 2 100 0 false) [] 0 false), [], ka, (bind_ex ka), 40.
+  eexists. split; [reflexivity|]. split; [constructor|]. split; [repeat split; unfold bind_ex; try discriminate; reflexivity|].
+  vm_compute. repeat split; reflexivity.
+Qed.
+
+(** ---- Close, stated exactly.  Close sets dbIsClosed, resets the spill counter and leaves both tiers
+    as they are (memorydb.Close does nothing and returns nil) *)
+Theorem C17_close : forall a, astep a AClose = (mkAdapter (mem a) (db a) 0 true, ARClose).
+Proof. exact close_effect. Qed.
+
+(** after a Close anywhere in ANY history (no domain restriction at all: Remove, Clear, further Closes,
+    any values and sizes) the adapter stays closed and the persister is never written or pruned again:
+    its content is the one it had when Close was called *)
+Theorem C17_close_freezes_persister : forall a0 pre post,
+  dbIsClosed (arun a0 (pre ++ AClose :: post)) = true /\
+  db (arun a0 (pre ++ AClose :: post)) = db (arun a0 pre).
+Proof. exact close_freezes_db. Qed.
+
+(** "no loss" does NOT survive Close: capacity 1; Put a; Close; Put b - a is evicted from the memory
+    tier, Put returns len(evictedValues) != 0 without spilling, a is in neither tier, Has/Get do not
+    find it *)
+Theorem C17_no_loss_after_close_refuted : exists bind cap mb a0 ops k,
+  newAdapter cap mb = Some a0 /\ Forall (wf_c bind) ops /\ In k (puts ops) /\
+  ad_Has (arun a0 ops) k = false /\ snd (ad_Get (arun a0 ops) k) = None /\
+  Peek (mem (arun a0 ops)) k = None /\ db_get k (db (arun a0 ops)) = None.
+Proof.
+  exists bind_ex, 1, 100, (mkAdapter (mkClru [] 1 100 0 false) [] 0 false),
+    [APut ka (bind_ex ka) 40; AClose; APut kb (bind_ex kb) 40], ka.
+  split; [reflexivity|]. split.
+  - repeat constructor; unfold bind_ex; try discriminate; reflexivity.
+  - vm_compute. repeat split; try reflexivity. left. reflexivity.
+Qed.
+
+(** what still holds once the adapter is closed (after any history of the domain with Close in it):
+    Keys lists the memory tier only; a key in the memory tier is reported by Has and returned by Get with
+    its value; a key NOT in the memory tier is not found - Has false, Get (nil, false) - whatever the
+    persister holds *)
+Theorem C17_closed_serves_memory_only : forall bind cap mb a0 ops, newAdapter cap mb = Some a0 ->
+  Forall (wf_c bind) ops ->
+  let a := arun a0 ops in
+  dbIsClosed a = true ->
+  ad_Keys a = Keys (mem a) /\
+  forall k,
+    (In k (Keys (mem a)) -> ad_Has a k = true /\ snd (ad_Get a k) = Some (bind k)) /\
+    (~ In k (Keys (mem a)) -> ad_Has a k = false /\ snd (ad_Get a k) = None).
+Proof. exact closed_serves_memory_only. Qed.
+
+(** in particular a key spilled BEFORE the Close (or anything else the persister holds) and not in the
+    memory tier is no longer found although the persister still holds exactly what it held at the Close *)
+Theorem C17_spilled_then_closed_not_found : forall bind cap mb a0 pre post k, newAdapter cap mb = Some a0 ->
+  Forall (wf_c bind) pre -> Forall (wf_c bind) post ->
+  let a := arun a0 (pre ++ AClose :: post) in
+  ~ In k (Keys (mem a)) ->
+  ad_Has a k = false /\ snd (ad_Get a k) = None /\ db_get k (db a) = db_get k (db (arun a0 pre)).
+Proof. exact spilled_then_closed_not_found. Qed.
+
+(** non-vacuity of the HasOrAdd / Close statements: capacity 2 / 100 bytes.  HasOrAdd a, HasOrAdd b
+    (both inserted, added=false), HasOrAdd c spills a (added=true), HasOrAdd a finds a in the persister
+    (has=true); Close; a (spilled before) is no longer found although the persister holds it; b and c
+    (memory tier) are; Put a evicts b WITHOUT spilling: b is lost; SizeInBytesContained / MaxSize *)
+Definition ex_ops2 : list aop :=
+  [AHasOrAdd ka (bind_ex ka) 40; AHasOrAdd kb (bind_ex kb) 40; AHasOrAdd kc (bind_ex kc) 40;
+   AHasOrAdd ka (bind_ex ka) 40].
+Example C17_hasoradd_close_nonvacuous :
+  Forall (wf_op bind_ex) ex_ops2 /\ Forall (wf_c bind_ex) (ex_ops2 ++ [AClose; APut ka (bind_ex ka) 40]) /\
+  match newAdapter 2 100 with
+  | Some a0 =>
+      snd (astep a0 (AHasOrAdd ka (bind_ex ka) 40)) = ARHasOrAdd false false /\
+      snd (astep (arun a0 (firstn 2 ex_ops2)) (AHasOrAdd kc (bind_ex kc) 40)) = ARHasOrAdd false true /\
+      snd (astep (arun a0 (firstn 3 ex_ops2)) (AHasOrAdd ka (bind_ex ka) 40)) = ARHasOrAdd true false /\
+      Keys (mem (arun a0 ex_ops2)) = [kb; kc] /\ map fst (db (arun a0 ex_ops2)) = [ka] /\
+      ad_Has (arun a0 ex_ops2) ka = true /\
+      let a1 := arun a0 (ex_ops2 ++ [AClose]) in
+      dbIsClosed a1 = true /\ numValuesInStorage a1 = 0 /\
+      ad_Has a1 ka = false /\ snd (ad_Get a1 ka) = None /\ db_get ka (db a1) = Some (bind_ex ka) /\
+      ad_Has a1 kb = true /\ snd (ad_Get a1 kc) = Some (bind_ex kc) /\ ad_Keys a1 = [kb; kc] /\
+      snd (astep a1 (APut ka (bind_ex ka) 40)) = ARPut true /\
+      let a2 := arun a0 (ex_ops2 ++ [AClose; APut ka (bind_ex ka) 40]) in
+      Keys (mem a2) = [kc; ka] /\ map fst (db a2) = [ka] /\ ad_Has a2 kb = false /\
+      snd (astep a2 ASizeInBytesContained) = ARSize 80 /\
+      snd (astep a2 AMaxSize) = ARMaxSize 9223372036854775807
+  | None => False
+  end.
+Proof.
+  split; [repeat constructor; unfold bind_ex; try discriminate; reflexivity|].
+  split; [repeat constructor; unfold bind_ex; try discriminate; reflexivity|].
+  vm_compute. repeat split; reflexivity.
+Qed.
+
 Print Assumptions C17_no_loss.
 Print Assumptions C17_spill_before_drop.
 Print Assumptions C17_flag.
+Print Assumptions C17_hasoradd_flags.
+Print Assumptions C17_hasoradd_added_means_inserted_refuted.
+Print Assumptions C17_close.
+Print Assumptions C17_close_freezes_persister.
+Print Assumptions C17_no_loss_after_close_refuted.
+Print Assumptions C17_closed_serves_memory_only.
+Print Assumptions C17_spilled_then_closed_not_found.
